@@ -68,10 +68,51 @@ func linearOf(c *Ctx, ev *tmpl.Evaluator, name string) *tmpl.Linear {
 	return l
 }
 
+// localNames are identifiers that are local to the generated code (variables, parameters,
+// receivers): renaming one leaves behaviour unchanged, so the emission patterns must not depend
+// on them. loosen rewrites every whole-word occurrence outside ⟦…⟧ placeholders to \w+.
+var localNames = []string{"hasKey", "rawData", "raw", "res", "formats", "route", "body", "size", "file", "rw", "payload", "producer", "consumer", "response",
+	"rcv", "stage1", "stage2", "rawProps", "props", "additional", "result", "buf", "data", "toadd", "_parts", "b1", "b2", "b3", "getType", "uprinc", "aCtx", "principal",
+	"Params", "name", "scheme", "unregistered", "um", "method", "path", "username", "password", "token", "scopes", "v", "b", "r", "a"}
+
+var localRx = func() *regexp.Regexp {
+	var alts []string
+	for _, n := range localNames {
+		alts = append(alts, regexp.QuoteMeta(n))
+	}
+	return regexp.MustCompile(`(^|[^\\.\w$])(` + strings.Join(alts, "|") + `)\b`)
+}()
+
+func loosen(rx string) string {
+	var out strings.Builder
+	for len(rx) > 0 {
+		i := strings.Index(rx, "⟦")
+		seg := rx
+		if i >= 0 {
+			seg = rx[:i]
+		}
+		// twice: adjacent matches share their separator
+		seg = localRx.ReplaceAllString(seg, `${1}\w+`)
+		seg = localRx.ReplaceAllString(seg, `${1}\w+`)
+		out.WriteString(seg)
+		if i < 0 {
+			break
+		}
+		j := strings.Index(rx[i:], "⟧")
+		if j < 0 {
+			out.WriteString(rx[i:])
+			break
+		}
+		out.WriteString(rx[i : i+j+len("⟧")])
+		rx = rx[i+j+len("⟧"):]
+	}
+	return out.String()
+}
+
 // checkEmitRules applies a table of emission rules.
 func checkEmitRules(c *Ctx, rule string, ev *tmpl.Evaluator, table []emitRule) {
 	for _, er := range table {
-		rx := regexp.MustCompile(er.Rx)
+		rx := regexp.MustCompile(loosen(er.Rx))
 		trees := er.Trees
 		if len(trees) == 0 {
 			trees = ev.F.Names()
@@ -126,7 +167,7 @@ func checkEmitRules(c *Ctx, rule string, ev *tmpl.Evaluator, table []emitRule) {
 func checkOrder(c *Ctx, rule, key string, l *tmpl.Linear, why string, pats ...string) {
 	last := -1
 	for i, p := range pats {
-		loc := regexp.MustCompile(p).FindStringIndex(l.Text)
+		loc := regexp.MustCompile(loosen(p)).FindStringIndex(l.Text)
 		if loc == nil {
 			c.Bad(rule, key, l.Tree.File, fmt.Sprintf("step %d /%s/ is not emitted. %s", i+1, p, why))
 			return
